@@ -160,6 +160,37 @@ fn mutate1(src: &str, rng: &mut Rng, counter: &mut usize) -> String {
     out
 }
 
+/// Every identifier-like code token (not a keyword, literal or `_`) gets `pad` more characters, and
+/// the text is put on one line.
+fn stretch_names(text: &str, pad: usize) -> String {
+    const KEYWORDS: [&str; 23] = ["end", "begin", "data", "codata", "as", "def", "define", "let", "param", "in", "that", "do", "ret", "fn", "pi", "fix", "match", "comatch", "forall", "sigma", "exists", "_", "format"];
+    let raw = crate::c11::raw_stream(text);
+    let mut out = String::new();
+    let mut depth = 0usize;
+    for (i, (a, b)) in raw.spans.iter().enumerate() {
+        let t = &text[*a..*b];
+        match raw.classes[i] {
+            | crate::c11::Raw::Open => depth += 1,
+            | crate::c11::Raw::Close if depth > 0 => depth -= 1,
+            | _ => {}
+        }
+        let first = t.chars().next().unwrap_or(' ');
+        let nameish = depth == 0
+            && raw.classes[i] == crate::c11::Raw::Code
+            && (first.is_alphabetic() || ((first == '+' || first == '.') && t.len() > 1 && t[1..].chars().next().is_some_and(|c| c.is_alphabetic())))
+            && !KEYWORDS.contains(&t)
+            && t.chars().all(|c| c.is_alphanumeric() || matches!(c, '_' | '\'' | '+' | '.'));
+        out.push_str(t);
+        if nameish {
+            out.push('_');
+            out.push_str(&"stretched_name_padding_for_overflow"[..pad.min(34)]);
+        }
+        out.push(' ');
+    }
+    out.push('\n');
+    out
+}
+
 pub fn run(opts: &Opts) -> i32 {
     let mut sink = Sink::new(&opts.out);
     let mut rng = Rng::new(opts.seed);
@@ -223,6 +254,11 @@ pub fn run(opts: &Opts) -> i32 {
                         inputs.push((format!("gencomment:{k}{suffix}"), format!("{prefix}{t}")));
                     }
                 }
+            }
+            // the same program on one line with every name stretched, so that arms, telescopes and
+            // operator chains overflow the width and wrap where short names never do
+            if suffix.is_empty() && text.len() < 1500 {
+                inputs.push((format!("genlong:{k}"), stretch_names(&text, 10 + (k % 3) * 8)));
             }
             let n_comment = if opts.thorough() { 4 } else { 2 };
             for _ in 0..n_comment {
